@@ -9,6 +9,9 @@ mod util;
 mod s_cks;
 mod s_pkglen;
 mod s_scalars;
+mod s_tables;
+mod g_tables;
+mod sinks;
 
 use std::io::{BufRead, Write};
 
@@ -26,6 +29,9 @@ fn streams() -> Vec<(&'static str, GenFn, RunFn)> {
         ("eisa", s_scalars::gen_eisa as GenFn, s_scalars::run_eisa as RunFn),
         ("eisablk", s_scalars::gen_eisablk as GenFn, s_scalars::run_eisablk as RunFn),
         ("uuid", s_scalars::gen_uuid as GenFn, s_scalars::run_uuid as RunFn),
+        ("tbl", g_tables::gen_tbl as GenFn, s_tables::run_tbl as RunFn),
+        ("tblbig", g_tables::gen_tblbig as GenFn, s_tables::run_tbl as RunFn),
+        ("ent", g_tables::gen_ent as GenFn, s_tables::run_ent as RunFn),
     ]
 }
 
